@@ -46,6 +46,8 @@ def make_stream(rnd):
             # program chatter with carriage returns: a progress line rewritten in place, a CRLF line end
             lines.append(rnd.choice(['loading 10%\rloading 55%', 'dos line\r', '\rleading', 'a\r\rb', 'spinner |\rspinner /\rspinner -']))
     text = '\n'.join(lines)
+    if rnd.random() < 0.12:
+        text = '\ufeff' + rnd.choice(['starting up\n', '\n', '']) + text      # a byte order mark in front of the first line
     if rnd.random() < 0.7:
         text += '\n'
     return text
@@ -74,7 +76,7 @@ def chunkings(rnd, text):
     return parts
 
 
-def run_mode(mode, text, sched, workdir, extra_args=(), parent_env=None, lib_dir=None, brk=None):
+def run_mode(mode, text, sched, workdir, extra_args=(), parent_env=None, lib_dir=None, brk=None, marker='-r'):
     env = dict(os.environ, PYTHONPATH=common.REPO, WDV_KEEP='kept')
     env.pop('WAYLAND_DEBUG', None)
     env.pop('LD_LIBRARY_PATH', None)
@@ -96,7 +98,7 @@ def run_mode(mode, text, sched, workdir, extra_args=(), parent_env=None, lib_dir
         env['WDV_SCHED'] = sp
         env['WDV_DUMP'] = os.path.join(workdir, 'dump.json')
         pre = ['--libwayland', lib_dir] if lib_dir else []
-        r = subprocess.run([sys.executable, '-B', main, '-C'] + (['-b', brk] if brk else []) + pre + ['-r', sys.executable, hp] + list(extra_args), input='q\n', capture_output=True, text=True, env=env, timeout=120)
+        r = subprocess.run([sys.executable, '-B', main, '-C'] + (['-b', brk] if brk else []) + pre + [marker, sys.executable, hp] + list(extra_args), input='q\n', capture_output=True, text=True, env=env, timeout=120)
     return r
 
 
@@ -137,7 +139,7 @@ def run(res):
                 parts.append([data[prev:c].hex(), 0.03])
                 prev = c
             sched = {'chunks': parts, 'status': status}
-        extra = rnd.choice([[], ['-g', '--run'], ['a b', '-l', 'x'], ['--', '-C']])
+        extra = rnd.choice([[], ['-g', '--run'], ['a b', '-l', 'x'], ['--', '-C'], ['a', '-r', 'b'], ['x', '--gdb']])
         # the environment wayland-debug itself is started in: WAYLAND_DEBUG already set to something, a library path present or not
         penv = {'WAYLAND_DEBUG': rnd.choice([None, None, '1', '0', '', 'server', 'client']),
                 'LD_LIBRARY_PATH': rnd.choice([None, None, '/opt/wdv/lib', '/a:/b']),
@@ -148,7 +150,8 @@ def run(res):
         try:
             rl = run_mode('load', text, sched, work, brk=brk)
             rp = run_mode('pipe', text, sched, work, brk=brk)
-            rr = run_mode('run', text, sched, work, extra, penv, lib_dir, brk=brk)
+            marker = rnd.choice(['-r', '-r', '--run', '-Cr'])          # the run marker on its own, spelled out, or closing a cluster
+            rr = run_mode('run', text, sched, work, extra, penv, lib_dir, brk=brk, marker=marker)
         except subprocess.TimeoutExpired as e:
             res.disagree('a mode hung', dict(text=text, sched=sched), None, repr(e), sig={'category': 'timeout'})
             continue
